@@ -36,16 +36,16 @@ def run(ctx):
         if ctx.tier == "quick":
             ctx.differential("c05", 4000, nontrivial=nontrivial, max_report=10 ** 6, timeout=1500)
         else:
-            ctx.differential("c05", 0, extra=["-reps", "6"], nontrivial=nontrivial, max_report=10 ** 6, timeout=3000)
+            ctx.differential("c05", 0, extra=["-reps", "12"], nontrivial=nontrivial, max_report=10 ** 6, timeout=3000)
             base = ctx.seed
             ctx.seed = base * 1000003 + 1
-            ctx.differential("c05", 0, extra=["-reps", "4"], tag="-s2", nontrivial=nontrivial, max_report=10 ** 6, timeout=3000)
+            ctx.differential("c05", 0, extra=["-reps", "8"], tag="-s2", nontrivial=nontrivial, max_report=10 ** 6, timeout=3000)
             ctx.seed = base
     _summarise(ctx)
 
     ctx.coverage["rule"] = (
-        "sampled instances of every instruction form (quick: ~4000 instances over all opcodes; thorough: every form x 6 + "
-        "every form x 4 under a second seed), operands boundary-biased (immediates 0, 1, 2^(n-1)-1, 2^(n-1), 2^n-1, -1, -2^(n-1) in "
+        "sampled instances of every instruction form (quick: ~4000 instances over all opcodes; thorough: every form x 12 + "
+        "every form x 8 under a second seed), operands boundary-biased (immediates 0, 1, 2^(n-1)-1, 2^(n-1), 2^n-1, -1, -2^(n-1) in "
         "signed and unsigned constant types; every physical register of each class incl. SP/BP/R12/R13 as base, R8-R15, "
         "AH..BH, X16-X31 for EVEX forms, K0-K7; displacements 0, +-small, 8-bit and 32-bit limits; scale 1/2/4/8; with/without "
         "index; sym+off(FP)/(SP)/(SB)); built through x86.VerifBuild (the code path of every generated constructor), printed "
